@@ -444,7 +444,11 @@ func (mr *memRepo) blobDelete(d digest.Digest, locked bool) error {
 		mr.mu.Lock()
 		defer mr.mu.Unlock()
 	}
-	_, ok := mr.blobs[d]
+	b, ok := mr.blobs[d]
+	if ok && b == nil {
+		// the entry marks a blob of the directory as deleted or not found
+		return types.ErrNotFound
+	}
 	if ok {
 		if mr.path != "" {
 			mr.blobs[d] = nil
